@@ -51,8 +51,11 @@ Section Equivariance1D.
   Variable D : Type.
   Variable d0 : D.
   Variable body : list Z -> list D -> option (list D) -> list D * list (list D).
-  (* the body returns per-point arrays (C01's shape property) *)
-  Hypothesis body_len : forall xs ys ws,
+  Definition wlen (w : option (list D)) (n : nat) : Prop :=
+    match w with None => True | Some w' => length w' = n end.
+
+  (* the body returns per-point arrays (C01's shape property) when it is given per-point arrays *)
+  Hypothesis body_len : forall xs ys ws, length ys = length xs -> wlen ws (length xs) ->
     length (fst (body xs ys ws)) = length xs /\
     Forall (fun p => length p = length xs) (snd (body xs ys ws)).
 
@@ -60,9 +63,6 @@ Section Equivariance1D.
     let s := argsort x in
     let r := body (gather 0%Z x s) (gather d0 y s) (option_map (fun w' => gather d0 w' s) w) in
     permute_out D d0 (inverted_sort s) r.
-
-  Definition wlen (w : option (list D)) (n : nat) : Prop :=
-    match w with None => True | Some w' => length w' = n end.
 
   Lemma wrapper_is_eff x y w : length y = length x -> wlen w (length x) ->
     wrapper D d0 body x y w = wrapper_eff x y w.
@@ -76,6 +76,8 @@ Section Equivariance1D.
     set (r := body _ _ _).
     destruct (body_len (gather 0%Z x (argsort x)) (gather d0 y (argsort x))
                 (option_map (fun w' => gather d0 w' (argsort x)) w)) as [Lb Lp].
+    { rewrite !gather_length; auto. }
+    { destruct w; simpl; auto. rewrite !gather_length; auto. }
     fold r in Lb, Lp. rewrite gather_length, (is_perm_length _ _ (argsort_perm x)) in Lb, Lp.
     f_equal.
     - apply unsort_array_eff; auto.
